@@ -2,6 +2,7 @@ import Driver.UF
 import Driver.Merge
 import Driver.Schedule
 import Driver.Table
+import Driver.Extract
 open Driver
 
 structure St where
@@ -9,6 +10,7 @@ structure St where
   mg : MgSt := {}
   sc : ScSt := {}
   tb : TbSt := {}
+  ex : ExSt := {}
 
 def dispatch (s : St) (line : String) : St × String :=
   match (line.trimAscii.toString.splitOn " ").filter (· ≠ "") with
@@ -16,6 +18,7 @@ def dispatch (s : St) (line : String) : St × String :=
   | "mg" :: rest => let (p, o) := mgStep s.mg rest; ({ s with mg := p }, o)
   | "sc" :: rest => let (p, o) := scStep s.sc rest; ({ s with sc := p }, o)
   | "tb" :: rest => let (p, o) := tbStep s.tb rest; ({ s with tb := p }, o)
+  | "ex" :: rest => let (p, o) := exStep s.ex rest; ({ s with ex := p }, o)
   | _ => (s, "bad-op")
 
 partial def loop (h : IO.FS.Stream) (out : IO.FS.Stream) (s : St) : IO Unit := do
